@@ -14,12 +14,13 @@ Mirrors the Rust *as it is*:
   the first narrow one that does not fit `i16` inserts its instruction index into `wide` and restarts (`continue 'a`);
 * then `code_length` must be in 1..=65535.
 
-Restriction of the domain (stated, not hidden): instructions are the representative set below; every instruction `k`
+Restriction of the domain (stated, not hidden): instructions are the set below (everything except `invokedynamic`
+and `ldc` of method handles / method types / dynamic constants, which need the BootstrapMethods attribute); every instruction `k`
 carries the label `k`, the last label is `n = instructions.len()`; any other label number is an unknown label.
 `ldc` is given the pool index `PoolWrite::put_loadable` returns (the put is idempotent, see `Thm.C02.pool_put_idem`).
 
 Unchecked `u16`/`i32` arithmetic of the Rust (overflow checks on) is an explicit `Fail.panic`:
-`opcode_pos + 1 + 2` in `if_helper` (lines 470/482), `high - low + 1` in the `tableswitch` arm (line 928),
+`opcode_pos + 1 + 2` in `if_helper` (lines 470/482), `high - low + 1` in the `tableswitch` arm (line 928), `size += 1|2` in `get_arguments_size` (descriptor.rs:354/367),
 `end - start` in `Labels::try_get_range` (labels.rs:43).
 -/
 
@@ -61,6 +62,14 @@ inductive Insn where
   | jsr (t : Nat)
   | tableswitch (dflt : Nat) (low high : Int) (table : List Nat)
   | lookupswitch (dflt : Nat) (pairs : List (Int × Nat))
+  /-- three-byte instructions with a constant-pool index: `getstatic` … `invokestatic` (0xb2–0xb8), `new` (0xbb),
+  `anewarray` (0xbd), `checkcast` (0xc0), `instanceof` (0xc1); `idx` is what `put_field_ref` /
+  `put_method_ref…` / `put_class` returned -/
+  | cp (op : Nat) (idx : Nat)
+  /-- the `count` operand is computed from the method descriptor by `MethodDescriptor::get_arguments_size` -/
+  | invokeinterface (idx : Nat) (desc : JStr)
+  | newarray (atype : Nat)
+  | multianewarray (idx : Nat) (dims : Nat)
   deriving DecidableEq, Repr
 
 inductive Fail where
@@ -113,6 +122,42 @@ def encIinc (idx : Nat) (v : Int) : Bytes :=
 
 def encRet (idx : Nat) : Bytes :=
   if idx ≤ 255 then [0xa9, idx] else 0xc4 :: 0xa9 :: u16b idx
+
+/-! ## `MethodDescriptor::get_arguments_size` (duke/src/tree/descriptor.rs): 1 for `this` + argument slots, in a `u8` -/
+
+/-- skip the rest of a class name up to and including `;` -/
+def skipClass : List Nat → Option (List Nat)
+  | [] => none
+  | c :: cs => if c = 59 then some cs else skipClass cs
+
+def skipBrackets : List Nat → List Nat
+  | c :: cs => if c = 91 then skipBrackets cs else c :: cs
+  | [] => []
+
+/-- the loop of `get_arguments_size`; `fuel` ≥ number of characters. `size += …` on a `u8` is unchecked: `panic` above 255 -/
+def argsLoop : Nat → List Nat → Nat → Except Fail Nat
+  | 0, _, _ => .error .err
+  | fuel + 1, cs, size =>
+    match cs with
+    | [] => .error .err   -- `chars.next()` returns `None`: "unexpected abrupt ending"
+    | c :: rest =>
+      if c = 41 then .ok size
+      else if c = 68 ∨ c = 74 then
+        if size + 2 > 255 then .error .panic else argsLoop fuel rest (size + 2)
+      else
+        match skipBrackets (c :: rest) with
+        | [] => .error .err
+        | c' :: rest' =>
+          if c' = 76 then
+            match skipClass rest' with
+            | none => .error .err
+            | some rest'' => if size + 1 > 255 then .error .panic else argsLoop fuel rest'' (size + 1)
+          else if size + 1 > 255 then .error .panic else argsLoop fuel rest' (size + 1)
+
+def argsSize (desc : JStr) : Except Fail Nat :=
+  match desc with
+  | 40 :: rest => argsLoop (rest.length + 1) rest 1
+  | _ => .error .err
 
 /-! ## `if_helper`, `goto_helper`, `switch_helper` -/
 
@@ -198,6 +243,13 @@ def encInsn (isWide : Bool) (lbl : Nat → Option Nat) (p k : Nat) : Insn → En
   | .jsr t => encGoto 0xa8 0xc9 isWide lbl p k t
   | .tableswitch d lo hi tb => encTableSwitch lbl p k d lo hi tb
   | .lookupswitch d ps => encLookupSwitch lbl p k d ps
+  | .cp op idx => .ok (op :: u16b idx, [])
+  | .invokeinterface idx desc =>
+    match argsSize desc with
+    | .error e => .error e
+    | .ok c => .ok (0xb9 :: (u16b idx ++ [c, 0]), [])
+  | .newarray a => .ok ([0xbc, a], [])
+  | .multianewarray idx d => .ok (0xc5 :: (u16b idx ++ [d]), [])
 
 /-! ## one attempt -/
 
